@@ -321,6 +321,17 @@ func (c *Client) validateVirtualChannelFundingProposal(
 		return errors.WithMessage(err, "insufficient funds")
 	}
 
+	// The funding update must debit every participant exactly its (remapped)
+	// balance in the virtual channel and add nothing but the virtual channel's
+	// sub-allocation.
+	if !ch.state().Balances.Sub(virtual).Equal(prop.State.Balances) {
+		return errors.New("invalid balances")
+	}
+	expectedLocked := append(append([]channel.SubAlloc{}, ch.state().Locked...), *expected)
+	if !channel.SubAllocsEqual(expectedLocked, prop.State.Locked) {
+		return errors.New("invalid locked funds")
+	}
+
 	return nil
 }
 
